@@ -22,8 +22,10 @@ import (
 )
 
 var (
-	tsAlphabet  = []uint64{1700000000, 0, 1, 2147483648, 1710054000, 4102444800}
-	ts64        = []int64{1700000100, 0, 1, -1, 1710054000, 2147483648}
+	// 1710054000: the hour skipped in New York when daylight saving time starts; 1730615400: 01:30 EST of the hour that
+	// occurs twice when it ends (the same wall clock reading occurred an hour earlier as 01:30 EDT)
+	tsAlphabet  = []uint64{1700000000, 0, 1, 2147483648, 1710054000, 4102444800, 1730615400}
+	ts64        = []int64{1700000100, 0, 1, -1, 1710054000, 2147483648, 1730615400}
 	delayValues = []int32{30, 0, -90, 2147483647, -2147483648}
 	zoneIST     = time.FixedZone("IST", 19800)
 	zoneLondon  = mustLoc("Europe/London")
@@ -54,12 +56,13 @@ func pickIndex(name string) int {
 
 func genTripDesc(c *Ctx, p string, i int, rich bool) *gtfsrt.TripDescriptor {
 	d := &gtfsrt.TripDescriptor{}
-	ids := []string{fmt.Sprintf("T%d", i), "", fmt.Sprintf("trip with space %d", i), fmt.Sprintf("trïp-日本-%d", i)}
+	// padded ids: "T1  " and "T1" are different ids (nothing on the wire says padding is insignificant)
+	ids := []string{fmt.Sprintf("T%d", i), "", fmt.Sprintf("trip with space %d", i), fmt.Sprintf("trïp-日本-%d", i), fmt.Sprintf(" T%d\u00a0 ", i)}
 	if i == 2 {
 		ids = append(ids, "T1") // the trip_id of the other trip: the other identifier fields tell them apart
 	}
 	d.TripId = optStr(c, p+"trip_id", true, ids...)
-	d.RouteId = optStr(c, p+"route_id", rich, fmt.Sprintf("R%d", i), "")
+	d.RouteId = optStr(c, p+"route_id", rich, fmt.Sprintf("R%d", i), "", fmt.Sprintf(" R%d\t", i))
 	d.DirectionId = optU32(c, p+"direction_id", rich, uint32(i%2), uint32(1-i%2), 7)
 	d.StartTime = optStr(c, p+"start_time", rich, fmt.Sprintf("0%d:08:09", i), "00:00:00", "25:10:05", "23:59:59")
 	d.StartDate = optStr(c, p+"start_date", rich, fmt.Sprintf("2024031%d", i-1), "20231105", "19700101", "20240229", "20240908", "20240407")
@@ -412,7 +415,12 @@ func c02Harness(rich bool) Harness {
 			parseRT(c, b, &gtfs.ParseRealtimeOptions{Timezone: g.tz.loc})
 			return
 		}
+		// the process-local zone (TZ) is an environment input: it is set to something else than UTC while
+		// the library runs - "UTC when none is given" does not mean "whatever the machine is set to"
+		savedLocal0 := time.Local
+		time.Local = time.FixedZone("Elsewhere", 19800)
 		r, err, ok := parseRT(c, b, &gtfs.ParseRealtimeOptions{Timezone: g.tz.loc})
+		time.Local = savedLocal0
 		if !ok {
 			return
 		}
@@ -436,7 +444,12 @@ func c02Harness(rich bool) Harness {
 		// the same bytes under another zone, in the same process: the result must follow the option
 		// of THIS call (the twin of a fixed zone has the same name and another offset)
 		tz2 := tzOptions[c02Twin[pickIndex(g.tz.name)]]
+		// ... and with the process-local zone (TZ) set to something else than UTC: "UTC when none is given"
+		// does not mean "whatever the machine is set to"
+		savedLocal := time.Local
+		time.Local = time.FixedZone("Elsewhere", 19800)
 		r2, err2, ok2 := parseRT(c, b, &gtfs.ParseRealtimeOptions{Timezone: tz2.loc})
+		time.Local = savedLocal
 		if !ok2 {
 			return
 		}
@@ -597,7 +610,7 @@ func init() {
 	register(&Check{
 		ID:    "C02",
 		Level: "model_checking",
-		Rule: "conflict-free messages from 2 trip + 2 vehicle descriptors in 6 entity slots (TU T1, VP V1, TU T2, VP V2, alert, id-less VP), 0-3 or 7 stop time updates, every optional wire field present/absent with boundary values (timestamps 0/1/2^31/DST-gap/2100, delays incl. int32 extremes, all enum values used by the library), x Timezone option {nil, UTC, +05:30, America/New_York, Europe/London, two fixed zones that share the name EST but not the offset, America/Santiago - whose DST starts at local midnight - with start dates on its switch days}, x 3 entity orders; within k deviations (quick 2, thorough 3) of a sparse and a rich base; " +
+		Rule: "conflict-free messages from 2 trip + 2 vehicle descriptors in 6 entity slots (TU T1, VP V1, TU T2, VP V2, alert, id-less VP), 0-3 or 7 stop time updates, every optional wire field present/absent with boundary values (timestamps 0/1/2^31/DST-gap/DST-fold/2100, ids padded with blanks and U+00A0, delays incl. int32 extremes, all enum values used by the library), x Timezone option {nil, UTC, +05:30, America/New_York, Europe/London, two fixed zones that share the name EST but not the offset, America/Santiago - whose DST starts at local midnight - with start dates on its switch days}, x 3 entity orders; within k deviations (quick 2, thorough 3) of a sparse and a rich base; " +
 			"every value of the surfaced wire enums; optionally every wire field the library does not surface populated (tts texts, severity, images, trip properties, modified trip, carriage details, wheelchair accessibility, departure occupancy, incrementality, NYCT header) and entities of unread kinds (shape, stop, trip_modifications) appended - nothing surfaced may change; plus messages of 1..1025 trips x 0..65 stop time updates, as many vehicles, and alerts with 1..66 selectors / periods / translations, under every zone option; " +
 			"non-trivial = distinct (message bytes, zone) with >= 2 entities; oracle = reference interpretation written from the statement",
 		Assumptions: []string{"protobuf-go Marshal/Unmarshal is trusted", "messages outside the quantifier (coinciding pool entries, empty vehicle descriptor inside a trip update) are executed for crash freedom only", "the harness embeds time/tzdata"},
